@@ -81,6 +81,8 @@ CFG = {
                 "cut is applied before the third load of a continuation's save is compared)",
                 "generator.GraphSaver is constructed by the harness through reflect + unsafe (unexported fields app, "
                 "savePath), as the edit server does with -autosave",
+                "shipped-graph stream: .glb/.gltf artifacts are digested by content (extensionsUsed / extensionsRequired, "
+                "sets of names that polyform's writer emits in Go map order, are sorted first; everything else as written)",
                 "graphs built in code are judged on the implementation alone (CFile cases); the model does not cover "
                 "AddProducer / the dependency walk of buildIDsForNode"],
     "modelled": ["strings.ToLower/EqualFold on ASCII only; strconv.Atoi on unsigned digit strings for saved dependency "
